@@ -12,7 +12,7 @@
     that the Kahn order is topological / that graph construction fails exactly on cyclic relations. *)
 From stdpp Require Import list.
 From Coq Require Import ZArith.
-From PV Require Import System Runner proofs.SchedProps proofs.OnceProps proofs.StageProps.
+From PV Require Import Graph System Runner proofs.GraphProps proofs.SchedProps proofs.OnceProps proofs.StageProps.
 
 (** over every history: the number of times task [n] of job [id] began executing is at most one *)
 Theorem C02_at_most_once : ∀ s id n, reach s → (began (st_ghost s) id n ≤ 1)%nat.
@@ -23,6 +23,13 @@ Theorem C02_begins_after_dependencies : ∀ s id n s' r j sc,
   reach s → step s (EvRunBegin id n) = Some (s', r) → get_job s id = Some j → j_sched j = Some sc →
   forallb (dep_ok sc j) (task_deps j n) = true.
 Proof. exact begins_after_deps. Qed.
+
+(** the task list a job takes from its definition (sortTasksByDependencies) is a permutation of the defined tasks — none
+    lost, none duplicated — ordered by (Kahn rank, name) *)
+Theorem C02_job_tasks_are_the_defined_tasks : ∀ ts, sort_tasks ts ≡ₚ ts.
+Proof. exact sort_tasks_perm. Qed.
+Theorem C02_job_tasks_ordered_by_rank_and_name : ∀ ts, sorted_by (task_ranks ts) (sort_tasks ts).
+Proof. exact sort_tasks_sorted. Qed.
 
 Theorem C02_launch_only_when_deps_satisfied_partial : ∀ s id n s' j sc,
   do_visit s id n = Some s' → get_job s id = Some j → j_sched j = Some sc →
@@ -56,6 +63,8 @@ Proof. vm_compute. done. Qed.
 
 Print Assumptions C02_at_most_once.
 Print Assumptions C02_begins_after_dependencies.
+Print Assumptions C02_job_tasks_are_the_defined_tasks.
+Print Assumptions C02_job_tasks_ordered_by_rank_and_name.
 Print Assumptions C02_launch_only_when_deps_satisfied_partial.
 Print Assumptions C02_failed_dependency_blocks.
 Print Assumptions C02_cyclic_job_harmless.
